@@ -192,7 +192,7 @@ theorem ioLoopStmts_eq : Nsq.Gen.Proto.ioLoopStmts = ([
 theorem handleMagic_eq : Nsq.Gen.Proto.handleMagic = ([
   "assign _, err := io.ReadFull(conn, buf)",
   "assign protocolMagic := string(buf)",
-  "case \" V2\"",
+  "case \"  V2\"",
   "assign prot = &protocolV2{nsqd: p.nsqd}"] : List String) := rfl
 
 theorem c_defaultBufferSize_eq : Nsq.Gen.Proto.c_defaultBufferSize = (16384 : Int) := rfl
